@@ -3,6 +3,9 @@
 NAME=$1; shift
 cd /verif
 [ -z "$(git -C /repo status --porcelain --untracked-files=no)" ] || { echo "/repo has uncommitted changes"; exit 2; }
+rm -rf /var/tmp/evidence.keep; cp -r /verif/evidence /var/tmp/evidence.keep
 git -C /repo apply /verif/seeded/$NAME/patch.diff || { echo "patch does not apply to /repo"; exit 2; }
 for c in "$@"; do echo "--- $c on seeded $NAME"; ./check $c --tier quick > /var/tmp/seedrun.log 2>&1; echo "rc=$?"; tail -4 /var/tmp/seedrun.log; done
 git -C /repo checkout -- .
+# evidence files are only ever committed from runs on the unchanged tree
+rm -rf /verif/evidence; mv /var/tmp/evidence.keep /verif/evidence
